@@ -177,7 +177,7 @@ Proof. unfold expand. destruct x; try reflexivity. rewrite apply_group_eq. refle
 
 Definition not_str (v : val) : bool := match v with VStr _ => false | _ => true end.
 
-Lemma textish_not_str v : textish v = false -> not_str v = true.
+Lemma nonmap_not_str v : nonmap v = false -> not_str v = true.
 Proof. destruct v; simpl; congruence. Qed.
 
 Lemma apply_top_eq k v :
@@ -194,16 +194,16 @@ Proof.
 Qed.
 
 Lemma apply_actions_eq d :
-  dict_group_text gk d = false -> apply_actions pv jl T' d = apply_actions pv jl T d.
+  dict_group_is nonmap gk d = false -> apply_actions pv jl T' d = apply_actions pv jl T d.
 Proof.
   intro H. unfold apply_actions. apply map_opt_ext_in. intros kv Hin.
   rewrite apply_top_eq; [reflexivity|]. intro Ek.
   pose proof (existsb_false_In _ _ kv H Hin) as Hp. simpl in Hp.
-  fold gd in Hp. rewrite Ek, str_eqb_refl in Hp. simpl in Hp. apply textish_not_str, Hp.
+  fold gd in Hp. rewrite Ek, str_eqb_refl in Hp. simpl in Hp. apply nonmap_not_str, Hp.
 Qed.
 
 (* ---------------- the invariant ---------------- *)
-Definition tv_clean (x : tv) : bool := match x with TLeaf v => negb (textish v) | TNs _ => true end.
+Definition tv_clean (x : tv) : bool := match x with TLeaf _ => false | TNs _ => true end.
 Definition clean (c : ns) : Prop := forall k x, In (k, x) c -> k = gd -> tv_clean x = true.
 Definition rclean (r : res ns) : Prop := match r with Ok c => clean c | _ => True end.
 
@@ -239,7 +239,7 @@ Proof.
 Qed.
 
 Lemma clean_apply_actions d ca :
-  dict_group_text gk d = false -> apply_actions pv jl T d = Some ca -> clean ca.
+  dict_group_is nonmap gk d = false -> apply_actions pv jl T d = Some ca -> clean ca.
 Proof.
   intros Hg Ha k x Hin Ek. unfold apply_actions in Ha.
   destruct (map_opt_In _ _ _ _ Ha Hin) as [kv [Hkv Hf]].
@@ -255,16 +255,16 @@ Qed.
 
 (* ---------------- config strings ---------------- *)
 Lemma apply_config_eq c text :
-  text_group_text pv gk text = false -> apply_config pv jl T' c text = apply_config pv jl T c text.
+  text_group_is pv nonmap gk text = false -> apply_config pv jl T' c text = apply_config pv jl T c text.
 Proof.
-  unfold text_group_text, apply_config. destruct (pv text); try reflexivity.
+  unfold text_group_is, apply_config. destruct (pv text); try reflexivity.
   intro H. rewrite (apply_actions_eq _ H). reflexivity.
 Qed.
 
 Lemma clean_apply_config c text :
-  text_group_text pv gk text = false -> clean c -> rclean (apply_config pv jl T c text).
+  text_group_is pv nonmap gk text = false -> clean c -> rclean (apply_config pv jl T c text).
 Proof.
-  unfold text_group_text, apply_config. destruct (pv text); simpl; try exact (fun _ _ => I).
+  unfold text_group_is, apply_config. destruct (pv text); simpl; try exact (fun _ _ => I).
   intros H Hc. destruct (apply_actions pv jl T l) as [cf|] eqn:E; simpl; [|exact I].
   apply clean_update; [exact Hc | eapply clean_apply_actions; eauto].
 Qed.
@@ -300,7 +300,7 @@ Qed.
 
 Definition env_ok (env : list (str * str)) : Prop :=
   lookup (env_name gd) env = None
-  /\ match lookup env_cfg env with Some t => text_group_text pv gk t = false | None => True end.
+  /\ match lookup env_cfg env with Some t => text_group_is pv nonmap gk t = false | None => True end.
 
 Lemma load_env_vars_eq env : env_ok env -> load_env_vars pv jl T' env = load_env_vars pv jl T env.
 Proof.
@@ -369,7 +369,7 @@ Proof.
 Qed.
 
 Definition item_ok (it : str * str) : Prop :=
-  starts_with (group_opt gk) (fst it) = false /\ text_group_text pv gk (snd it) = false.
+  starts_with (group_opt gk) (fst it) = false /\ text_group_is pv nonmap gk (snd it) = false.
 
 Lemma find_opt_with_load o :
   str_eqb o (dashes ++ gk) = false ->
@@ -418,16 +418,14 @@ Proof.
 Qed.
 
 Lemma check_values_leaf_eq c key v :
-  (key = gd -> not_str v = true) ->
-  check_values_leaf pv jl T' c key v = check_values_leaf pv jl T c key v.
+  key <> gd -> check_values_leaf pv jl T' c key v = check_values_leaf pv jl T c key v.
 Proof.
   intro H. unfold check_values_leaf. rewrite find_action_with_load.
   destruct (find_action T key false) as [r|] eqn:E.
   - destruct (is_load r); [|reflexivity]. destruct v; try reflexivity. rewrite load_config_eq. reflexivity.
   - destruct (str_eqb gd key) eqn:Ek.
-    + apply str_eqb_spec in Ek. rewrite is_load_L. rewrite <- Ek, Hbranch.
-      specialize (H (eq_sym Ek)). destruct v; try reflexivity. discriminate.
-    + apply is_branch_key_eq.
+    + apply str_eqb_spec in Ek. contradiction H. symmetry. exact Ek.
+    + rewrite is_branch_key_eq. reflexivity.
 Qed.
 
 Lemma dotted_ne_gd k f : k ++ [c_dot] ++ f <> gd.
@@ -440,10 +438,8 @@ Lemma check_values_eq c : clean c -> check_values pv jl T' c = check_values pv j
 Proof.
   intro Hc. unfold check_values. apply forallb_ext_in. intros [k x] Hin. simpl.
   destruct x as [v|l].
-  - apply check_values_leaf_eq. intro Ek. pose proof (Hc k (TLeaf v) Hin Ek) as Hv. simpl in Hv.
-    apply negb_true_iff in Hv. apply textish_not_str, Hv.
-  - apply forallb_ext_in. intros fv _. apply check_values_leaf_eq.
-    intro E. contradiction (dotted_ne_gd k (fst fv) E).
+  - apply check_values_leaf_eq. intro Ek. pose proof (Hc k (TLeaf v) Hin Ek) as Hv. discriminate.
+  - apply forallb_ext_in. intros fv _. apply check_values_leaf_eq. apply dotted_ne_gd.
 Qed.
 
 Lemma validate_eq c : clean c -> validate pv jl T' c = validate pv jl T c.
@@ -457,8 +453,7 @@ Proof.
   assert (E : is_none_at c gd = false).
   { unfold is_none_at. rewrite (split_key_nodot gd gd_nodot). simpl.
     destruct (lookup gd c) as [[v|l]|] eqn:El; try reflexivity.
-    apply lookup_In in El. pose proof (Hc gd (TLeaf v) El eq_refl) as Hv. simpl in Hv.
-    destruct v; try reflexivity. discriminate. }
+    apply lookup_In in El. pose proof (Hc gd (TLeaf v) El eq_refl) as Hv. discriminate. }
   rewrite E. reflexivity.
 Qed.
 
@@ -466,8 +461,8 @@ Qed.
 Definition entry_ok (e : entry) : Prop :=
   match e with
   | EArgs items => forall it, In it items -> item_ok it
-  | EObject d => dict_group_text gk d = false
-  | EString text => text_group_text pv gk text = false
+  | EObject d => dict_group_is nonmap gk d = false
+  | EString text => text_group_is pv nonmap gk text = false
   end.
 
 Lemma argv_fold_eq items :
@@ -501,7 +496,7 @@ Proof.
     rewrite (validate_eq _ Hc). unfold validate.
     destruct (check_values pv jl T (update c0 ca) && check_required T (update c0 ca)); try reflexivity. simpl.
     rewrite (dump_eq _ Hc). reflexivity.
-  - unfold text_group_text in Hen. destruct (pv text); try reflexivity.
+  - unfold text_group_is in Hen. destruct (pv text); try reflexivity.
     rewrite (apply_actions_eq l Hen).
     destruct (apply_actions pv jl T l) as [ca|] eqn:Ea; try reflexivity. simpl.
     assert (Hc : clean (update c0 ca)) by (apply clean_update; [exact Hc0 | eapply clean_apply_actions; eauto]).
@@ -512,10 +507,10 @@ Qed.
 
 (* the boolean guards of Model/C07Parse.v give the Prop-level conditions *)
 Lemma guards_ok inp :
-  argv_names_group gk inp = false -> env_names_group gk inp = false -> config_group_text pv gk inp = false ->
+  argv_names_group gk inp = false -> env_names_group gk inp = false -> config_group_nonmap pv gk inp = false ->
   env_ok (i_env inp) /\ entry_ok (i_entry inp).
 Proof.
-  unfold argv_names_group, env_names_group, config_group_text, env_ok, entry_ok.
+  unfold argv_names_group, env_names_group, config_group_nonmap, config_group_is, env_ok, entry_ok.
   intros Ha He Hc. apply orb_false_iff in Hc. destruct Hc as [Hc1 Hc2]. split; [split|].
   - fold gd in He. destruct (lookup (env_name gd) (i_env inp)); [discriminate | reflexivity].
   - destruct (lookup env_cfg (i_env inp)); [exact Hc1 | exact I].
